@@ -2,6 +2,7 @@ package c07
 
 import (
 	"fmt"
+	"net"
 	"sort"
 	"strconv"
 	"sync"
@@ -9,6 +10,7 @@ import (
 	"time"
 
 	"github.com/AliceO2Group/Control/apricot/local"
+	"github.com/AliceO2Group/Control/apricot/remote"
 	"pgregory.net/rapid"
 
 	"verifharness/simworld"
@@ -31,6 +33,7 @@ type Decision struct {
 type Case struct {
 	Initial   int      // initial counter value; -1 = key absent
 	Callers   [][]Call // per caller: its sequence of NewRunNumber calls
+	Remote    []bool   // per caller (missing = false): the caller asks an apricot server over gRPC (apricot:// mode) which holds the Service
 	Decisions []Decision
 }
 
@@ -81,7 +84,14 @@ func run(c Case) (res vh.Result) {
 	// PUT bodies applied per caller
 	for ci, calls := range c.Callers {
 		go func(ci int, calls []Call) {
-			var svc *local.Service
+			var svc interface{ NewRunNumber() (uint32, error) }
+			viaRemote := ci < len(c.Remote) && c.Remote[ci]
+			var stop []func()
+			defer func() {
+				for _, f := range stop {
+					f()
+				}
+			}()
 			for idx, call := range calls {
 				if svc == nil || call.FreshService {
 					s, err := local.NewService("consul://" + addrs[ci])
@@ -92,6 +102,29 @@ func run(c Case) (res vh.Result) {
 						continue
 					}
 					svc = s
+					if viaRemote {
+						// an apricot server in front of the Service, and the client the core would use in apricot:// mode
+						lis, lerr := net.Listen("tcp", "127.0.0.1:0")
+						if lerr != nil {
+							mu.Lock()
+							records = append(records, callRec{Caller: ci, Idx: idx, Err: "listen: " + lerr.Error()})
+							mu.Unlock()
+							svc = nil
+							continue
+						}
+						srv := remote.NewServer(s)
+						go srv.Serve(lis)
+						stop = append(stop, srv.Stop)
+						rs, rerr := remote.NewService("apricot://" + lis.Addr().String())
+						if rerr != nil {
+							mu.Lock()
+							records = append(records, callRec{Caller: ci, Idx: idx, Err: "remote.NewService: " + rerr.Error()})
+							mu.Unlock()
+							svc = nil
+							continue
+						}
+						svc = rs
+					}
 				}
 				mu.Lock()
 				inv := tick()
@@ -270,6 +303,7 @@ func gen(t *rapid.T) Case {
 			calls[j].FreshService = rapid.IntRange(0, 3).Draw(t, "fresh") == 0
 		}
 		c.Callers = append(c.Callers, calls)
+		c.Remote = append(c.Remote, rapid.IntRange(0, 3).Draw(t, "remote") == 0)
 	}
 	nd := rapid.IntRange(0, 40).Draw(t, "decisions")
 	for i := 0; i < nd; i++ {
@@ -291,6 +325,7 @@ func TestRunNumbersFixed(t *testing.T) {
 	vh.Fixed(t, prop, "read-read-cas-cas", Case{Initial: 41, Callers: [][]Call{{{}}, {{}}}, Decisions: []Decision{{0, 0, 0}, {0, 0, 0}, {0, 0, 0}, {0, 0, 0}}}, run)
 	vh.Fixed(t, prop, "create-race", Case{Initial: -1, Callers: [][]Call{{{}}, {{}}}, Decisions: []Decision{{0, 0, 0}, {0, 0, 0}, {1, 0, 0}, {0, 0, 0}}}, run)
 	vh.Fixed(t, prop, "foreign-writer-between-read-and-cas", Case{Initial: 7, Callers: [][]Call{{{}, {}}}, Decisions: []Decision{{0, 0, 0}, {0, 0, 10}, {0, 0, 0}, {0, 0, 0}}}, run)
+	vh.Fixed(t, prop, "through-an-apricot-server-back-to-back", Case{Initial: 41, Callers: [][]Call{{{}, {}, {}}}, Remote: []bool{true}, Decisions: []Decision{{0, 0, 0}, {0, 0, 0}, {0, 0, 0}, {0, 0, 0}, {0, 0, 0}, {0, 0, 0}}}, run)
 	vh.Fixed(t, prop, "refused-cas", Case{Initial: 3, Callers: [][]Call{{{}, {true}}}, Decisions: []Decision{{0, 0, 0}, {0, 9, 0}, {0, 0, 0}, {0, 0, 0}}}, run)
 	vh.Fixed(t, prop, "reply-cut-after-apply", Case{Initial: 3, Callers: [][]Call{{{}, {}}, {{}}}, Decisions: []Decision{{0, 0, 0}, {0, 7, 0}, {0, 0, 0}, {0, 0, 0}, {0, 0, 0}, {0, 0, 0}}}, run)
 }
